@@ -26,6 +26,51 @@ SHRINK_PLAN = False
 
 def cases(seed, tier):
     yield from streams.stream_cases(ID, seed, tier, kinds=["pause", "trip", "put", "put", "put", "put"])
+    yield from history_cases(seed, tier)
+
+
+def history_cases(seed, tier):
+    """A history on one engine: an earlier call is ended (abort / stop / halt) while it is still suspended; the next
+    call monitors a signal, pauses and resumes - monitoring resumes as in any other call (nothing of the
+    suspension that never released is left behind)."""
+    from sim import gen
+    from sim.dsl import msg
+
+    rng = gen.rng_for(ID, seed, "history")
+    specs = gen.gen_world(rng, motors=1, dets=1, flyers=0, p_async=0.2)
+    specs["sigS"] = {"kind": "signal", "initial": 0}
+    pg = gen.PlanGen(rng, specs)
+    S = pg.S
+    for j in range(1 if tier == "quick" else 3):
+        first = [msg(S, "open_run"), msg(S, "checkpoint"), msg(S, "sleep", None, 1.0), msg(S, "close_run")]
+        second = [msg(S, "open_run"), msg(S, "monitor", "sig1", name="sig1_monitor"), msg(S, "checkpoint"), msg(S, "sleep", None, 1.0), msg(S, "null"), msg(S, "sleep", None, 1.0), msg(S, "unmonitor", "sig1"), msg(S, "close_run")]
+        term = rng.choice(["abort", "stop", "halt"])
+        yield {
+            "prop": ID,
+            "seed": seed,
+            "variant": f"call-ended-while-suspended-then-monitor-{j}",
+            "sim": {"handle_cost": 0.0},
+            "re": {"record_interruptions": rng.random() < 0.5},
+            "devices": specs,
+            "suspenders": {"s0": {"cls": "SuspendBoolHigh", "signal": "sigS", "kwargs": {"sleep": 0}}},
+            "script": [
+                {"do": "install_suspender", "sus": "s0"},
+                {"do": "call", "plan": first, "tag": "ended-while-suspended", "inject": [{"id": "t0", "at": {"time": 0.2}, "do": "trip", "args": {"signal": "sigS", "value": 1}}, {"id": "a0", "at": {"time": 0.6}, "do": term}], "settle": "idle"},
+                {"do": "put", "signal": "sigS", "value": 0},
+                {
+                    "do": "call",
+                    "plan": second,
+                    "main": True,
+                    "inject": [{"id": "u1", "at": {"time": 0.1}, "do": "put", "args": {"signal": "sig1", "value": 201}}, {"id": "p0", "at": {"time": 0.3}, "do": "pause"}],
+                    "decisions": [
+                        {"do": "put", "signal": "sig1", "value": 202},
+                        {"do": "resume", "inject": [{"id": "u3", "at": {"time": 0.2}, "do": "put", "args": {"signal": "sig1", "value": 203}}, {"id": "u4", "at": {"time": 1.2}, "do": "put", "args": {"signal": "sig1", "value": 204}}]},
+                    ],
+                    "final": "resume",
+                },
+                {"do": "put", "signal": "sig1", "value": 299},
+            ],
+        }
 
 
 def check(res):
